@@ -74,6 +74,17 @@ def inv_cases(rng, tier):
             if rng.below(3) == 0:
                 ops.append('C:%d:%d:%s:%d' % (rng.choice(sels), rng.choice([1, 5]), '1e-10', rng.choice(sorts)))
             out.append(hist_line(cls, n, nev, ncv, ops, fam=fam, gfam=gfam, mseed=rng.below(10 ** 6), scale=(1.0 if breaky else rng.choice([1.0, 1.0, 1e-3, 1e3])), extra='kry=1'))
+    # targeted: generalized classes that iterate with the B-inner product, operator of small norm (scale 1e3 under shift-and-invert), nev close to ncv,
+    # many restarts: as the run converges the residual norms fall below sqrt(eps) and the NEAR-breakdown test of Lanczos (which must use the
+    # B-inner product) is executed; the second seeded change for C07 is only visible there, and a random draw found such a run for one seed in six
+    for cls in CLASSES:
+        if 'SymG' not in cls or 'Cholesky' in cls:
+            continue
+        sels, sorts = rules_for(cls)
+        for t in range(8 if tier == 'quick' else 24):
+            n = 11 + t % 4; nev = 8 + t % 2
+            ops = ['I' if t % 2 == 0 else 'V:r%d' % rng.below(100), 'C:%d:40:1e-10:%d' % (sels[0], rng.choice(sorts))]
+            out.append(hist_line(cls, n, nev, nev + 1, ops, fam='gapped', gfam='grealspec', mseed=rng.below(10 ** 6), scale=1000.0, extra='kry=1'))
     return out
 
 
